@@ -275,6 +275,25 @@ func fixedStrings() []string {
 	ss = append(ss, strings.Repeat("1", 1000)+"#", "123#"+strings.Repeat("0", 1000), "123#"+strings.Repeat("00", 9),
 		strings.Repeat("#", 5000), strings.Repeat("123#", 2000), "123#R"+strings.Repeat("1", 300), strings.Repeat("F", 17)+"#",
 		strings.Repeat("F", 16)+"#", strings.Repeat("0", 64)+"#", "123#"+strings.Repeat("f", 17), "123#"+strings.Repeat("f", 18))
+	// LENGTH SWEEP: data parts, remote length fields and ID parts whose lengths/values sit at the wrap-around
+	// points of the narrow integer types a parser might count them in (uint8: 256, uint16: 65536) and of Atoi
+	for _, base := range []int{0, 256, 512, 65536} {
+		for k := -2; k <= 18; k++ {
+			n := 2*base + k // number of hex digits of the data part
+			if n < 0 || (base == 0 && k > 18) {
+				continue
+			}
+			ss = append(ss, "123#"+strings.Repeat("AB", n/2)+strings.Repeat("C", n%2), "1ABCDEF0#"+strings.Repeat("5a", n/2)+strings.Repeat("0", n%2))
+		}
+	}
+	for _, r := range []string{"255", "256", "257", "264", "65535", "65536", "65544", "4294967295", "4294967296", "4294967304",
+		"9223372036854775807", "9223372036854775808", "18446744073709551615", "18446744073709551616", "18446744073709551624",
+		"00000000000000000008", "000", "007", "0x8", "1e0", "8.0", " 8", "8 "} {
+		ss = append(ss, "123#R"+r, "1FFFFFFF#R"+r)
+	}
+	for _, n := range []int{255, 256, 257, 259, 264, 65536 + 3, 65536 + 8} {
+		ss = append(ss, strings.Repeat("0", n-3)+"123#00", strings.Repeat("1", n)+"#R")
+	}
 	// every byte value in the positions the parser inspects
 	for c := 0; c < 256; c++ {
 		ch := string([]byte{byte(c)})
@@ -1006,6 +1025,13 @@ func fixedDocs() []string {
 		`{"id":True}`, `{"id":NULL}`, `{"extended":TRUE}`, `{"id":nulll}`, `{"id":truefalse}`, `{"id":1}/*c*/`, `//c` + "\n" + `{"id":1}`, `{"id":"\x"}`,
 		`{"id":"\u12"}`, `{"id":"\ud800"}`, "{\"id\":\"\n\"}", "{\"id\":\"\t\"}", `{"id":1,"data":"0102"}garbage`, `[{"id":1},{"id":2}]`, `"{\"id\":1}"`,
 		`{"ſd":1}`, `{"ıd":1,"İd":2}`, `{"lengtK":1}`, `{"remote":true,"length":4,"Length":null}`, `{"remote":true,"LENGTH":4}`, `{"REMOTE":true,"LENGTH":4,"EXTENDED":true,"ID":77}`}
+	for _, n := range []int{512, 520, 1024, 1032} {
+		ds = append(ds, `{"id":3,"data":"`+strings.Repeat("a5", n)+`"}`, `{"data":"`+strings.Repeat("0", 2*n+1)+`"}`)
+	}
+	for _, v := range []string{"536870911", "536870912", "2047", "2048", "2147483647", "2147483648", "4294967295"} {
+		ds = append(ds, `{"id":`+v+`}`, `{"id":`+v+`,"extended":true}`, `{"id":`+v+`,"extended":true,"remote":true,"length":8}`,
+			`{"id":`+v+`,"data":"0102030405060708"}`, `{"id":`+v+`,"extended":false,"data":"ff"}`)
+	}
 	deep := func(n int, open, close string, leaf string) string {
 		return strings.Repeat(open, n) + leaf + strings.Repeat(close, n)
 	}
